@@ -108,6 +108,12 @@ def gen_cases(tier, seed):
     cases[2].pop("target", None)
     cases[3].update({"route": "slices", "target": 1, "max_scales": None,
                      "shape": [12, 5, 3]})
+    # directed: a segmentation declared with --type and the DEFAULT downscaling method (which
+    # must then be the striding one in both routes)
+    cases[6].update({"route": "pair", "seg": True, "type_opt": True, "cseg": False,
+                     "method": "auto", "dtype": "uint16", "scal": None, "input_max": None,
+                     "voxel": [1, 1, 1], "vseed": cases[6]["vseed"] // 3 * 3 + 1})
+    cases[6].pop("target", None)
     # directed: --ignore-scaling TOGETHER with --input-max (each changes the value mapping)
     cases[5].update({"route": "pair", "seg": False, "cseg": False, "dtype": "int16",
                      "scal": [0.5, 3.0], "ignore": True, "input_max": 200.0,
@@ -233,8 +239,11 @@ def run_case(case):
         shape = case["shape"]
         dt = np.dtype(case["dtype"])
         if case["seg"]:
-            vol = (g.integers(0, 7, size=[-(-s // 6) for s in shape]).repeat(6, 0)
-                   .repeat(6, 1).repeat(6, 2)[:shape[0], :shape[1], :shape[2]]).astype(dt)
+            # regions of 3, 5 or 6 voxels: with odd region sizes the 2x2x2 blocks of the first
+            # downscaling step straddle region borders (stride / majority / average differ)
+            rs = (3, 5, 6)[case["vseed"] % 3]
+            vol = (g.integers(0, 7, size=[-(-s // rs) for s in shape]).repeat(rs, 0)
+                   .repeat(rs, 1).repeat(rs, 2)[:shape[0], :shape[1], :shape[2]]).astype(dt)
         elif dt.kind == "f":
             vol = g.normal(size=shape).astype(dt)
         else:
